@@ -246,7 +246,9 @@ func (ex *Exec) libModel(full string, e *ast.CallExpr, callee *types.Func) ([]Va
 		inI, inJ := And(Le(I(0), i), Lt(i, n)), And(Le(I(0), j), Lt(j, n))
 		ex.assume(Forall([]string{"i"}, Imp(inI, Exists([]string{"j"}, And(inJ, Eq(ex.elemAt(ns, elem, i), ex.elemAt(old.T, elem, j))))), ex.elemAt(ns, elem, i)))
 		ex.assume(Forall([]string{"j"}, Imp(inJ, Exists([]string{"i"}, And(inI, Eq(ex.elemAt(ns, elem, i), ex.elemAt(old.T, elem, j))))), ex.elemAt(old.T, elem, j)))
+		ex.boundNames = append(ex.boundNames, "i", "j")
 		lessJI := ex.evalPredLit(lit, []*T{j, i}, []types.Type{typInt, typInt})
+		ex.boundNames = ex.boundNames[:len(ex.boundNames)-2]
 		ex.assume(ForallMulti([]string{"i", "j"}, Imp(And(Le(I(0), i), Lt(i, j), Lt(j, n)), Not(lessJI)), []*T{ex.elemAt(ns, elem, i), ex.elemAt(ns, elem, j)}))
 		return nil, true
 	case "slices.DeleteFunc":
@@ -320,7 +322,9 @@ func (ex *Exec) libModel(full string, e *ast.CallExpr, callee *types.Func) ([]Va
 		pred := func(x *T) *T { return ex.evalPredLit(lit, []*T{x}, []types.Type{elem}) }
 		r := ex.fresh("idx", SInt)
 		j := Const("j", SInt)
+		ex.boundNames = append(ex.boundNames, "j")
 		pj := pred(ex.elemAt(s.T, elem, j))
+		ex.boundNames = ex.boundNames[:len(ex.boundNames)-1]
 		ex.assume(And(Le(I(-1), r), Lt(r, SLen(s.T)),
 			Imp(Le(I(0), r), pred(ex.elemAt(s.T, elem, r))),
 			Forall([]string{"j"}, Imp(And(Le(I(0), j), Lt(j, Ite(Le(I(0), r), r, SLen(s.T)))), Not(pj)))))
